@@ -18,7 +18,8 @@ use std::sync::{Arc, Condvar, Mutex};
 
 pub const INPUTS: [&str; 9] = [
     "---\ntitle: T\ntime: 1 hour\nprep time: 5 min\n---\nMix @a{1%kg}.\n",
-    ">> time: 10\n>> prep time: 5\n>> cook time: 3\nstep\n",
+    // (the last entry: an unsupported value that consists of two text fragments)
+    ">> time: 10\n>> prep time: 5\n>> cook time: 3\n>> servings: a [- c -] b\nstep\n",
     ">> [mode]: components\n@a{1}\n>> [mode]: steps\nUse @a and @&a{2}.\n>> [duplicate]: ref\n",
     "Mix @flour{200%g} and #bowl.\n\nRest @&(~1)dough{} and @&flour{100%g} in #&bowl ~{1%h}.\n",
     ">> k: v\n@a{1/0} @|{}\n\nmore @b{2}\n",
@@ -104,8 +105,9 @@ fn observe_text(p: &CooklangParser, call: usize, input: &str, original: &'static
             .parse_with_options(
                 input,
                 cooklang::ParseOptions {
-                    // answers differently from the check of call kind 3 for every name
-                    recipe_ref_check: Some(Box::new(|name: &str| match name.len() % 3 {
+                    // answers differently from the check of call kind 3 for every name, and first follows the
+                    // reference the way an application that loads referenced recipes would: 17 parses deep
+                    recipe_ref_check: Some(Box::new(|name: &str| match { if name == "abc" { nested_reference(p, 1); } name.len() % 3 } {
                         0 => cooklang::analysis::CheckResult::Ok,
                         1 => cooklang::analysis::CheckResult::Error(vec!["not here".into()]),
                         _ => cooklang::analysis::CheckResult::Warning(vec!["perhaps".into()]),
@@ -123,6 +125,23 @@ fn observe_text(p: &CooklangParser, call: usize, input: &str, original: &'static
             None => "no output".to_string(),
         },
     }
+}
+
+/// a chain of recipes that reference each other, followed to depth 17 from inside the reference check
+fn nested_reference(p: &CooklangParser, depth: usize) {
+    if depth >= 18 {
+        return;
+    }
+    let _ = p.parse_with_options(
+        "@@a",
+        cooklang::ParseOptions {
+            recipe_ref_check: Some(Box::new(move |_: &str| {
+                nested_reference(p, depth + 1);
+                cooklang::analysis::CheckResult::Ok
+            })),
+            metadata_validator: None,
+        },
+    );
 }
 
 /// entry point of the fresh subprocess: `engine c18-fresh <cfg> <call>`
@@ -144,7 +163,11 @@ fn fresh_reference() -> Result<Vec<Vec<String>>, String> {
     for (cfg, i, h) in handles {
         let o = h.join().map_err(|_| "join".to_string())?.map_err(|e| e.to_string())?;
         if !o.status.success() {
-            return Err(format!("fresh subprocess for input {i} cfg {cfg} failed: {}", String::from_utf8_lossy(&o.stderr)));
+            // the code under test failed on its very first call in a new process: a result, not a machinery problem
+            let err = String::from_utf8_lossy(&o.stderr);
+            let last = err.lines().rev().find(|l| !l.trim().is_empty()).unwrap_or("").chars().take(300).collect::<String>();
+            out[cfg][i] = format!("FRESH PROCESS FAILED (exit {:?}): {last}", o.status.code());
+            continue;
         }
         out[cfg][i] = String::from_utf8_lossy(&o.stdout).into_owned();
     }
@@ -481,6 +504,14 @@ pub fn replay(case: &J) -> Vec<Violation> {
             let shared = [parser_for(0), parser_for(1), parser_for(2)];
             check_history(&reference, &shared, &h, &mut local)
         }
+        "fresh" => {
+            let (cfg, i) = (case["cfg"].as_u64().unwrap_or(0) as usize, case["call"].as_u64().unwrap_or(0) as usize);
+            if reference[cfg][i].starts_with("FRESH PROCESS FAILED") {
+                vec![Violation::new("a call fails when it is the first one in a new process", reference[cfg][i].clone(), case.clone())]
+            } else {
+                vec![]
+            }
+        }
         "reentrancy" => {
             let (cfg, i) = (case["cfg"].as_u64().unwrap_or(0) as usize, case["input"].as_u64().unwrap_or(0) as usize);
             let nested = reference[cfg][i * KINDS + 4].strip_prefix("nested=").and_then(|s| s.split('\u{1}').next()).unwrap_or("").to_string();
@@ -541,6 +572,20 @@ pub fn run(tier: Tier) {
             std::process::exit(2)
         }
     };
+    for cfg in 0..CFGS {
+        for i in 0..CALLS {
+            if reference[cfg][i].starts_with("FRESH PROCESS FAILED") {
+                c.violation(Violation::new(
+                    "a call fails when it is the first one in a new process",
+                    format!("cfg {cfg} call {i} (input {:?} kind {}): {}", INPUTS[i / KINDS], i % KINDS, reference[cfg][i]),
+                    json!({"kind": "fresh", "cfg": cfg, "call": i}),
+                ));
+            }
+        }
+    }
+    if c.has_violations() {
+        return;
+    }
     // re-entrancy: the parse made from inside the validator callback must equal the plain parse of the same input
     for cfg in 0..CFGS {
         for i in 0..INPUTS.len() {
